@@ -16,6 +16,10 @@ Model side (evaluated inside Coq on the regenerated skeletons, Gen/Skel.v):
     corresponding call kind (expected "T" when no run of that kind leaked / closed a caller file);
   * for every observed (function, exit kind, set of handles left open): the analysis' set of
     possibly-open handles at that exit contains it (the model predicts every leak it is shown);
+  * for every distinct observed (function, sequence of open/open-failed/close events, returned|raised):
+    the skeleton has a run with exactly these events and that outcome (`accepts`, an executable
+    acceptor proved sound in Proofs/IOSkelTraceProofs.v) — what the implementation was seen to do is
+    among the behaviours the theorems quantify over;
   * every `open` observed at run time happened at a source line the translator turned into an
     `Open`/`With` (Skel.open_sites), and no other module reachable from las.py opens files.
 """
@@ -35,7 +39,7 @@ import lib
 sys.path.insert(0, os.path.join(lib.VERIF, "translators"))
 
 PROP = "C20"
-MODEL_TARGETS = ["Model/IOSkel.vo", "Gen/Skel.vo"]
+MODEL_TARGETS = ["Model/IOSkel.vo", "Model/IOSkelTrace.vo", "Gen/Skel.vo"]
 THEOREMS = ["C20_sound", "C20_sound_general", "C20_ret_sound", "C20_caller_untouched_sound",
             "C20_read", "C20_write", "C20_to_csv", "C20_adhoc", "C20_open_with_codecs", "C20_open_file",
             "C20_read_exec", "C20_write_exec", "C20_to_csv_exec",
@@ -74,7 +78,7 @@ class Injector:
         self.fired = None          # name of the operation the fault was raised at
         self.owned = []            # proxies for files lasio opened
         self.caller = []           # proxies for files the caller supplied
-        self.trace = []
+        self.events = []           # ("O"|"X"|"C", site or "caller"): open ok / open raised / close called
 
     def tick(self, name):
         """count one low-level operation; True if the fault is due at it"""
@@ -114,6 +118,8 @@ class FileProxy(object):
     # counted operations -----------------------------------------------------------------
     def close(self):
         due = INJ.tick("close") if INJ.active else False
+        if INJ.active:
+            INJ.events.append(("C", self._site if self._owner == "lasio" else "caller"))
         self._f.close()                      # close() closes even when it then reports an error
         object.__setattr__(self, "_closed_by_call", True)
         if due:
@@ -166,8 +172,13 @@ def _spy_open(*a, **k):
     site = _site_of(sys._getframe(1))
     if site is None:
         return _REAL_OPEN(*a, **k)          # not opened by lasio (numpy, chardet, logging, ...)
-    INJ.op("open")
-    f = _REAL_OPEN(*a, **k)
+    try:
+        INJ.op("open")
+        f = _REAL_OPEN(*a, **k)
+    except BaseException:
+        INJ.events.append(("X", site))
+        raise
+    INJ.events.append(("O", site))
     p = FileProxy(f, "lasio", site)
     INJ.owned.append(p)
     return p
@@ -419,7 +430,8 @@ def run_one(d, name, k):
     out.leaked = [p for p in INJ.owned if p._is_open()]
     out.caller_closed = [p for p in INJ.caller if not p._is_open()]
     out.held = reachable_open_handles(las) if las is not None else []
-    out.sites = sorted({p._site for p in INJ.owned})
+    out.events = list(INJ.events)
+    out.sites = sorted({p._site for p in INJ.owned} | {e[1] for e in INJ.events if e[1] != "caller"})
     out.leaked_sites = sorted({p._site for p in out.leaked})
     out.problems = []
     if out.leaked:
@@ -449,7 +461,7 @@ def describe(name, k, o):
 
 # ---------------------------------------------------------------------------------------
 RUN_DEF = """
-Require Import IOSkel Skel.
+Require Import IOSkel IOSkelTrace Skel.
 Open Scope N_scope.
 Definition skel_of (s : list N) : option (stmt * list nat) :=
   if str_eqb s (s2l "read") then Some (skel_read, rets_read)
@@ -473,7 +485,16 @@ Fixpoint site_lookup (k : list N) (t : list (String.string * nat)) : list N :=
   | [] => [63]
   | (a, h) :: t' => if str_eqb (s2l a) k then N_to_str (N.of_nat h) else site_lookup k t'
   end.
-(* queries:  leak_free|fn   untouched|fn   predicts|fn|exit|h,h,..   site|file:line   others| *)
+Definition ev_of (s : list N) : list ev :=
+  match s with
+  | 79 :: d => [EOpen (nat_of_str d)]
+  | 88 :: d => [EOpenFail (nat_of_str d)]
+  | 67 :: d => [EClose (nat_of_str d)]
+  | _ => []
+  end.
+Definition evs (s : list N) : list ev := flat_map ev_of (split_char 44 s).
+(* queries:  leak_free|fn   untouched|fn   predicts|fn|exit|h,h,..   trace|fn|exit|O1,C1,..
+             site|file:line   others| *)
 Definition run (i : list N) : list N :=
   match fields i with
   | q :: f :: rest =>
@@ -484,6 +505,11 @@ Definition run (i : list N) : list N :=
       | Some (sk, rets) =>
           if str_eqb q (s2l "leak_free") then bool_to_str (leak_free_ret rets sk)
           else if str_eqb q (s2l "untouched") then bool_to_str (caller_handles_untouched sk)
+          else if str_eqb q (s2l "trace") then
+            match rest with
+            | e :: l :: _ => bool_to_str (accepts sk (evs l) (str_eqb e (s2l "raise")))
+            | _ => [63]
+            end
           else if str_eqb q (s2l "predicts") then
             match rest, an sk [] with
             | e :: l :: _, Some r =>
@@ -502,7 +528,7 @@ def enumerate_all(d, ctx, res, scenarios=None):
     """runs every (scenario, k); returns bookkeeping used by run() and search()"""
     import skeleton
     stats = {"per_kind": {}, "fired": set(), "cases": 0, "leaks": {}, "caller_closed": {}, "sites": set(),
-             "exhaustive": True, "observed": set(), "unexpected": []}
+             "exhaustive": True, "observed": set(), "unexpected": [], "traces": {}}
     for kind, fn, name, _ in (SCENARIOS if scenarios is None else scenarios):
         clean = run_one(d, name, 0)
         stats["cases"] += 1
@@ -528,6 +554,7 @@ def enumerate_all(d, ctx, res, scenarios=None):
             stats["sites"].update(o.sites)
             leaked_h = tuple(sorted(o.leaked_sites))
             stats["observed"].add((fn, "raise" if o.exc else "return", leaked_h))
+            stats["traces"].setdefault((fn, "raise" if o.exc else "return", tuple(o.events)), (name, k))
             if o.leaked:
                 stats["leaks"].setdefault(fn, []).append((name, k))
             if o.caller_closed:
@@ -600,6 +627,17 @@ def run(ctx):
             hs.append("999" if h is None else str(h))
         add(lib.fields("predicts", fn, ex, ",".join(hs)), "T",
             "analysis of skel_%s predicts the handles observed open at %s: {%s}" % (fn, ex, ",".join(hs)))
+    try:
+        var_hid = skeleton.variable_hids(REPO)
+    except Exception:
+        var_hid = {}
+    for (fn, ex, evs), (name, k) in sorted(stats["traces"].items(), key=lambda kv: (kv[1], kv[0][1])):
+        toks = []
+        for kind_, site in evs:
+            h = var_hid.get((fn, "file_ref")) if site == "caller" else site_table.get(site)
+            toks.append("%s%s" % (kind_, 999 if h is None else h))
+        add(lib.fields("trace", fn, ex, ",".join(toks)), "T",
+            "skel_%s has a run with the events %s ending in %s (first seen: %s, k=%d)" % (fn, " ".join(toks) or "(none)", ex, name, k))
     if ctx.build.model_ok:
         mism, err = lib.run_coq_cases("c20", [], RUN_DEF, cases)
         res.corr_error = err
@@ -615,6 +653,7 @@ def run(ctx):
                 "which the injected fault actually fired")
     res.histogram = {k: v for k, v in stats["per_kind"].items()}
     res.histogram["model_side_cases"] = len(cases)
+    res.histogram["distinct_event_traces_checked_against_skeletons"] = len(stats["traces"])
     if stats["unexpected"]:
         res.histogram["failure_class_not_reproduced"] = stats["unexpected"]
     res.extra = {"exhaustive": bool(stats["exhaustive"]),
